@@ -8,12 +8,13 @@ type case = {
   cmd : string;
   lead : string list; groups : string list list; trailing : string list;
   known : bool;             (* command is in the table *)
+  via_parser : Incrgen.case option;   (* Some: not a direct call - a source stream through the incremental parser / sender with a key filter configured *)
 }
 
 let id = "C13"
 let rule = "every command of Redis's key-specification table (Spec/RedisKeySpecs; the regenerated table of the tool is proved equal to it) x its valid argument shapes (1..3 key groups, 0..2 trailing options where the row allows, \
 leading sub-command where firstkey>1) x ALL pass/reject assignments of the keys x whitelist/blacklist phrasing, plus unknown commands and no-filter \
-configurations; companions/options are chosen so that they WOULD be rejected if examined as keys; non-trivial = >=2 keys with mixed verdicts; distinct by wire line"
+configurations, plus source streams pushed through the real incremental parser and sender under key-filter configurations (what the filter's verdict does to the NEXT command); companions/options are chosen so that they WOULD be rejected if examined as keys; non-trivial = >=2 keys with mixed verdicts; distinct by wire line"
 
 (* the cases and the oracle follow REDIS's key specification (Spec/RedisKeySpecs, extracted), not the table regenerated from
    redis_command.go: a row of the tool's table that names other arguments as keys shows up as a wrong forwarded command *)
@@ -39,31 +40,42 @@ let gen st tier =
             let key = (if pass then "p" else if kind = "W" then "q" else "r") ^ "key" ^ string_of_int i ^ rnd_string_of st "ab{}" (rnd_int st 3) in
             key :: List.init (step - 1) (fun j -> bad ^ "val" ^ string_of_int (i * 10 + j))) asg in
           let trailing = List.init nt (fun i -> bad ^ "opt" ^ string_of_int i) in
-          cases := { kind; prefixes; cmd; lead; groups; trailing; known = true } :: !cases) [ "W"; "B" ])
+          cases := { kind; prefixes; cmd; lead; groups; trailing; known = true; via_parser = None } :: !cases) [ "W"; "B" ])
         (assignments ng)) nts) ngs) table;
   (* no filter configured / unknown command: unchanged *)
   let extra = List.concat_map (fun (cmd, known) ->
-    [ { kind = "N"; prefixes = []; cmd; lead = []; groups = [ [ "rk1" ]; [ "pk2" ] ]; trailing = [ "x" ]; known };
-      { kind = "W"; prefixes = [ "p" ]; cmd; lead = []; groups = [ [ "qk1" ]; [ "qk2" ] ]; trailing = []; known } ])
+    [ { kind = "N"; prefixes = []; cmd; lead = []; groups = [ [ "rk1" ]; [ "pk2" ] ]; trailing = [ "x" ]; known; via_parser = None };
+      { kind = "W"; prefixes = [ "p" ]; cmd; lead = []; groups = [ [ "qk1" ]; [ "qk2" ] ]; trailing = []; known; via_parser = None } ])
     [ ("flushall", false); ("zunionstore", false); ("SET", false); ("del", true); ("mset", true) ] in
   (* checkpoint keys are always rejected *)
-  let cp = [ { kind = "B"; prefixes = [ "zz" ]; cmd = "del"; lead = []; groups = [ [ "redis-shake-checkpoint" ]; [ "a" ]; [ "redis-shake-checkpoint-abcd" ] ]; trailing = []; known = true } ] in
-  List.rev !cases @ extra @ cp
+  let cp = [ { kind = "B"; prefixes = [ "zz" ]; cmd = "del"; lead = []; groups = [ [ "redis-shake-checkpoint" ]; [ "a" ]; [ "redis-shake-checkpoint-abcd" ] ]; trailing = []; known = true; via_parser = None } ] in
+  (* the same filter reached through the incremental parser and sender (C03's harness): streams under the key-filter configurations,
+     in which key-rejected commands stand next to commands without arguments, transactions, multi-key and unknown commands *)
+  let blank = { kind = "N"; prefixes = []; cmd = ""; lead = []; groups = []; trailing = []; known = false; via_parser = None } in
+  (* grouped by configuration: the probe runs the cases of one configuration together *)
+  let parser_cases = List.concat_map (fun ci -> List.init (if thorough then 130 else 14) (fun _ ->
+      { blank with via_parser = Some (Incrgen.gen_case st (List.nth Incrgen.configs ci)) })) [ 1; 2; 6 ] in
+  List.rev !cases @ extra @ cp @ parser_cases
 
 (* F12 witnesses *)
 let corpus = [
-  { kind = "W"; prefixes = [ "p" ]; cmd = "unlink"; lead = []; groups = [ [ "pk" ] ]; trailing = []; known = true };
-  { kind = "W"; prefixes = [ "p" ]; cmd = "bitop"; lead = [ "AND" ]; groups = [ [ "pd" ]; [ "ps" ]; [ "qs" ] ]; trailing = []; known = true };
-  { kind = "B"; prefixes = [ "r" ]; cmd = "sunionstore"; lead = []; groups = [ [ "d" ]; [ "ra" ]; [ "rb" ] ]; trailing = []; known = true };
-  { kind = "W"; prefixes = [ "p" ]; cmd = "blpop"; lead = []; groups = [ [ "qa" ]; [ "pb" ] ]; trailing = [ "0" ]; known = true } ]
+  { kind = "W"; prefixes = [ "p" ]; cmd = "unlink"; lead = []; groups = [ [ "pk" ] ]; trailing = []; known = true; via_parser = None };
+  { kind = "W"; prefixes = [ "p" ]; cmd = "bitop"; lead = [ "AND" ]; groups = [ [ "pd" ]; [ "ps" ]; [ "qs" ] ]; trailing = []; known = true; via_parser = None };
+  { kind = "B"; prefixes = [ "r" ]; cmd = "sunionstore"; lead = []; groups = [ [ "d" ]; [ "ra" ]; [ "rb" ] ]; trailing = []; known = true; via_parser = None };
+  { kind = "W"; prefixes = [ "p" ]; cmd = "blpop"; lead = []; groups = [ [ "qa" ]; [ "pb" ] ]; trailing = [ "0" ]; known = true; via_parser = None };
+  (* through the parser: a command whose only key is rejected, directly followed by commands without arguments *)
+  { kind = "N"; prefixes = []; cmd = ""; lead = []; groups = []; trailing = []; known = false;
+    via_parser = Some { Incrgen.cfg = List.nth Incrgen.configs 6; startdb = 0; base = 0; cuts = [ (0, 0) ];
+                        cmds = List.map (fun w -> (w, 0)) [ [ "select"; "0" ]; [ "multi" ]; [ "set"; "a1"; "1" ]; [ "set"; "b1"; "2" ]; [ "exec" ]; [ "set"; "a2"; "3" ];
+                                                            [ "del"; "b1"; "b2" ]; [ "flushdb" ]; [ "ping" ]; [ "mset"; "a1"; "1"; "b2"; "2" ]; [ "incr"; "k" ] ] } } ]
 
 let args_of c = c.lead @ List.concat c.groups @ c.trailing
 
-let to_line c =
+let to_line c = match c.via_parser with Some ic -> Incrgen.to_line ic | None ->
   Printf.sprintf "hfk %s %s %s %s" c.kind (if c.prefixes = [] then "-" else String.concat "," (List.map hex_of_string c.prefixes))
     (hex_of_string c.cmd) (String.concat " " (List.map hex_of_string (args_of c)))
 
-let show c =
+let show c = match c.via_parser with Some ic -> "through the incremental parser and sender: " ^ Incrgen.show ic | None ->
   Printf.sprintf "%s %s under %s" c.cmd (String.concat " " (args_of c))
     (match c.kind with "W" -> "whitelist [" ^ String.concat ";" c.prefixes ^ "]" | "B" -> "blacklist [" ^ String.concat ";" c.prefixes ^ "]" | _ -> "no key filter")
 
@@ -76,14 +88,14 @@ let key_passes c k =
   | "B" -> not (List.exists has c.prefixes)
   | _ -> true
 
-let classify c =
+let classify c = if c.via_parser <> None then Some "via-parser" else
   if c.kind = "N" || not c.known then Some "unchanged-path" else
   let v = List.map (fun g -> key_passes c (List.hd g)) c.groups in
   if List.length v >= 2 && List.mem true v && List.mem false v then Some ("mixed:" ^ c.cmd) else Some "uniform"
 
 let fail kind sig_ model impl detail = Fail { kind; sig_; model; impl; detail }
 
-let judge c obs =
+let judge c obs = match c.via_parser with Some ic -> C03.judge ic obs | None ->
   let impl = String.concat " " obs in
   let cfg = { Model.key_black = (if c.kind = "B" then List.map bytes_of_string c.prefixes else []);
               key_white = (if c.kind = "W" then List.map bytes_of_string c.prefixes else []);
